@@ -17,6 +17,7 @@ package main
 // workbook observation before == after.
 
 import (
+	"bytes"
 	"encoding/json"
 	"fmt"
 	"math"
@@ -224,7 +225,7 @@ func c09Ev(r *Run, f *xl.File, toks []efp.Token, fromText, class string) {
 			res = "ok " + c09ShowArg(a)
 		}
 	}()
-	hyp := c09NestedNoArray(toks)
+	hyp := c09NestedA(toks)
 	outcome := res
 	if hyp {
 		res += " h=1"
@@ -236,12 +237,16 @@ func c09Ev(r *Run, f *xl.File, toks []efp.Token, fromText, class string) {
 	r.Stat("ev:" + class)
 	r.Stat("ev:outcome:" + strings.SplitN(res, " ", 2)[0])
 	if hyp {
-		r.Stat("ev:hypothesis-of-eval_no_panic_functions-holds")
+		r.Stat("ev:hypothesis-of-eval_no_panic-holds")
+	}
+	if fromText != "" && fromText != "replay" && !hyp {
+		// efp-derived but outside the theorem's hypothesis (';' or a function named ARRAYROW outside an array constant)
+		r.Stat("ev:efp-tokens-outside-nestedA")
 	}
 	if outcome == "PANIC" {
 		if hyp {
-			// the Lean theorem eval_no_panic_functions says this cannot happen, whatever produced the list
-			r.Fail("ev:panic-on-nested-list@"+site, fmt.Sprintf("evalInfixExp panics (%s) on a properly nested, array-free token list [%s]", site, c09Shape(toks)), ln, op)
+			// the Lean theorem eval_no_panic says this cannot happen, whatever produced the list
+			r.Fail("ev:panic-on-nested-list@"+site, fmt.Sprintf("evalInfixExp panics (%s) on a token list that satisfies the nesting discipline [%s]", site, c09Shape(toks)), ln, op)
 		} else if fromText != "" {
 			r.Fail("ev:panic@"+site+" shape["+c09Shape(toks)+"]", fmt.Sprintf("evalInfixExp panics (%s) on the efp tokens of formula %q", site, fromText), ln, op)
 		} else {
@@ -250,49 +255,57 @@ func c09Ev(r *Run, f *xl.File, toks []efp.Token, fromText, class string) {
 	}
 }
 
-// c09NestedNoArray is the hypothesis of the Lean theorem eval_no_panic_functions
-// (XlModel.CalcTotal.nested [] 0 toks, no ARRAY/ARRAYROW start), re-implemented here; the
-// transcript compares it with the Lean checker on every ev line.
-func c09NestedNoArray(toks []efp.Token) bool {
-	var inner []byte // 'F' | 'P', innermost last
-	outer := 0
+// c09NestedA is the hypothesis of the Lean theorem eval_no_panic (XlModel.CalcTotal.nestedA [] []
+// toks: the array-aware nesting discipline a bracket-stack tokenizer guarantees), re-implemented
+// here; the transcript compares it with the Lean checker on every ev line.
+// Frames: 'F' function call, 'P' parenthesis, 'a' array constant, 'r' array constant with an open row.
+func c09NestedA(toks []efp.Token) bool {
+	var inner, outer []byte // innermost last; inner = since the outermost open function call
+	top := func(s []byte) byte {
+		if len(s) == 0 {
+			return 0
+		}
+		return s[len(s)-1]
+	}
 	for _, t := range toks {
 		fn, sub := t.TType == efp.TokenTypeFunction, t.TType == efp.TokenTypeSubexpression
+		cur := &outer
+		if len(inner) > 0 {
+			cur = &inner
+		}
 		switch {
-		case fn && t.TSubType == efp.TokenSubTypeStart:
-			if t.TValue == "ARRAY" || t.TValue == "ARRAYROW" {
+		case fn && t.TSubType == efp.TokenSubTypeStart && t.TValue == "ARRAY":
+			*cur = append(*cur, 'a')
+		case fn && t.TSubType == efp.TokenSubTypeStart && t.TValue == "ARRAYROW":
+			if top(*cur) != 'a' {
 				return false
 			}
+			(*cur)[len(*cur)-1] = 'r'
+		case fn && t.TSubType == efp.TokenSubTypeStart:
 			inner = append(inner, 'F')
 		case fn && t.TSubType == efp.TokenSubTypeStop:
-			if len(inner) > 0 {
-				if inner[len(inner)-1] != 'F' {
+			switch top(*cur) {
+			case 0: // nothing open (only possible out of the function stack)
+			case 'F', 'a':
+				*cur = (*cur)[:len(*cur)-1]
+			case 'r':
+				(*cur)[len(*cur)-1] = 'a'
+			case 'P':
+				if len(inner) > 0 || bytes.ContainsAny(outer, "ar") {
 					return false
 				}
-				inner = inner[:len(inner)-1]
 			}
 		case t.TType == efp.TokenTypeArgument:
-			if len(inner) > 0 && inner[len(inner)-1] == 'P' {
+			if len(inner) > 0 && top(inner) == 'P' {
 				return false
 			}
 		case sub && t.TSubType == efp.TokenSubTypeStart:
-			if len(inner) == 0 {
-				outer++
-			} else {
-				inner = append(inner, 'P')
-			}
+			*cur = append(*cur, 'P')
 		case sub && t.TSubType == efp.TokenSubTypeStop:
-			if len(inner) == 0 {
-				if outer == 0 {
-					return false
-				}
-				outer--
-			} else {
-				if inner[len(inner)-1] != 'P' {
-					return false
-				}
-				inner = inner[:len(inner)-1]
+			if top(*cur) != 'P' {
+				return false
 			}
+			*cur = (*cur)[:len(*cur)-1]
 		}
 	}
 	return true
@@ -434,7 +447,7 @@ func c09Mutate(rng *Rng, ts []efp.Token) []efp.Token {
 // kept so that a regression is reproduced deterministically)
 var c09EvWitnesses = []string{"({1}+SUM(2))", "'*'(1 2+3)", "SUM(1 '*'(2+3))", "'-'(1 2-3)", "'='(1 2=3)", "({1;2}+SUM(2)+(3))",
 	"1)", "SUM(1))", ")", "{1}+SUM(2)", "SUM((1,2))", "SUM(,)", "{SUM(1)}", "SUM({1}{2})", "1%%", "--1", "SUM(A1:A2,A1)", "SUM(A1:A2 A1)",
-	"SUM(({1,2}))", "SUM((1+{1,2}))", "LOOKUP((2,/{1,2,3},{\"a\",\"b\",\"c\"})", "SUM(0:0)", "1:0", "SUM(1:1048577)", "{(SUM(1))}", "SUM({(SUM(1))})", "{1,(SUM(1))}", "{(1)}", "SUM(({{1}}))", "SUM((SUM({SUM({1})})))", "SUM({{1,2};{3}})", "{{1}}+SUM((({{2}})))", "({{1}})", "SUM({{1}})", "{SUM(1,2)}", "SUM({SUM(1,2)},{3})", "1+", "SUM(1+)", "1*", "-", "(1+)", "1&", "SUM(1,)", "SUM(+)", "1<", "(({1}))", "SUM(({1}))", "({1})+SUM(1,(2))", "'*'((1 2)+3)", "SUM('*'(1,2) 3+4)"}
+	"SUM(({1,2}))", "SUM((1+{1,2}))", "LOOKUP((2,/{1,2,3},{\"a\",\"b\",\"c\"})", "SUM(0:0)", "1:0", "SUM(1:1048577)", "{(SUM(1))}", "SUM({(SUM(1))})", "{1,(SUM(1))}", "{(1)}", "SUM((ARRAYROW(1)))", "SUM((SUM(;1)))", "SUM((1;2))", "ARRAYROW(1)", "SUM((ARRAY(1)))", "O;FFSET(A1,1,1)", "SUM(({{1}}))", "SUM((SUM({SUM({1})})))", "SUM({{1,2};{3}})", "{{1}}+SUM((({{2}})))", "({{1}})", "SUM({{1}})", "{SUM(1,2)}", "SUM({SUM(1,2)},{3})", "1+", "SUM(1+)", "1*", "-", "(1+)", "1&", "SUM(1,)", "SUM(+)", "1<", "(({1}))", "SUM(({1}))", "({1})+SUM(1,(2))", "'*'((1 2)+3)", "SUM('*'(1,2) 3+4)"}
 
 func c09EvStream(r *Run, rng *Rng) {
 	f := c09EvFile()
